@@ -12,7 +12,8 @@ input fields and enum values, default values of every kind written in non-canoni
 interfaces, unions, custom scalars with @specifiedBy, repeatable directives, shuffled definition order) are rendered,
 built by the real code and introspected with introspection::partial_execute; a third of the queries also select a
 concrete root field, which must be skipped without error.  TLC (Trace_Introspection) computes the reference from the
-abstract schema and names every disagreement, comparing `types`, `directives` and `possibleTypes` as sets (their
+abstract schema and names every disagreement — once for the query with `includeDeprecated: true` everywhere and once
+for the same query without it (deprecated fields, arguments, input fields and enum values filtered out) —, comparing `types`, `directives` and `possibleTypes` as sets (their
 order may differ) and everything else in order.
 """
 import json
@@ -20,7 +21,7 @@ import os
 
 import vlib
 
-FIELDS = ("schema", "resp", "hasData", "errors", "dataKeys", "concrete", "crash")
+FIELDS = ("schema", "resp", "respNoDep", "hasData", "errors", "dataKeys", "concrete", "crash")
 
 
 def run(chk):
@@ -54,7 +55,12 @@ def run(chk):
         for f in fails:
             if isinstance(f, list):
                 p = f[1]
+                if isinstance(p, list) and p[0] == "without-includeDeprecated":
+                    p = p[1]
+                    p = ["nodep-" + p[0]] + p[1:] if isinstance(p, list) else "nodep-" + p
                 cls = p[0] if isinstance(p, list) else p
+                if cls == "nodep-default-value-printed-as-written":
+                    cls = "default-value-printed-as-written"
                 detail = {"problem": p}
             else:
                 cls = f
